@@ -85,7 +85,7 @@ theorem stopped_reach (s : Sender) : s.st.reach s.beStopped.1.st = true := by
 
 theorem resetAcked_reach (s : Sender) : s.st.reach s.resetAcked.st = true := by
   unfold Sender.resetAcked
-  cases s.err <;> cases hst : s.st <;> simp [SSt.reach, hst]
+  cases s.closed <;> cases s.err <;> cases hst : s.st <;> simp [SSt.reach, hst]
 
 theorem connError_reach (s : Sender) : s.st.reach s.connError.st = true := by
   unfold Sender.connError
